@@ -32,8 +32,7 @@ structure Sem (s : Schema) (env : RequestEnv) (w : World) : Prop where
 
 /-- binary operators of the fragment -/
 def binOpOK : BinaryOp → Bool
-  | .eq | .less | .lessEq | .add | .sub | .mul | .contains | .containsAll | .containsAny | .hasTag | .getTag => true
-  | _ => false
+  | .eq | .less | .lessEq | .add | .sub | .mul | .contains | .containsAll | .containsAny | .hasTag | .getTag | .mem => true
 
 -- THE SECOND PROVED FRAGMENT (strict mode): see Thm/C03.lean.  `if` has arbitrary branches; record literals have distinct keys
 -- (Rust's `ExprKind::Record` is a map); a slot is in the fragment when the environment is linked for it.
